@@ -174,7 +174,7 @@ theorem refusing_link {a : Nat} {x : X} (h : Refusing a x) (c : Nat) : link x.t 
   apply link_refused
   rcases h with h | h
   · exact .inr h
-  · left; unfold gate; simp only [Status.toNat] at h ⊢; omega
+  · left; unfold gate gateB; simp only [Status.toNat] at h ⊢; omega
 
 end Tree
 
